@@ -38,6 +38,7 @@ type DInput struct {
 	New       DRS   `json:"new"`
 	Olds      []DRS `json:"olds"`
 	NewOldest bool  `json:"new_oldest,omitempty"`
+	NoRU      bool  `json:"no_ru,omitempty"` // the strategy annotation carries no rollingUpdate section
 	// status.availableReplicas a previous sync left behind when it no longer matches the ReplicaSets (pods failed or became
 	// available since); not an input of the model: the controller counts the ReplicaSets it sees
 	StaleAvail *int `json:"stale_avail,omitempty"`
@@ -93,6 +94,7 @@ func (deployctlEngine) Gen(r *rand.Rand, idx int, tier string) any {
 		in.New.Avail = newSpec
 	}
 	in.NewOldest = chance(r, 25)
+	in.NoRU = chance(r, 10)
 	k := pick(r, 1, 1, 2, 3, 3, 4, 5, 0)
 	remain := n - newSpec
 	if chance(r, 25) {
@@ -181,6 +183,9 @@ func (deployctlEngine) Run(inAny any) (res any) {
 	if in.Unavail != nil {
 		strategy.RollingUpdate.MaxUnavailable = ptrIOS(in.Unavail.K8s())
 	}
+	if in.NoRU {
+		strategy.RollingUpdate = nil
+	}
 	d := &apps.Deployment{ObjectMeta: metav1.ObjectMeta{Namespace: "ns", Name: "web", UID: "d-uid", Generation: 2,
 		Annotations: map[string]string{util.BatchReleaseControlAnnotation: controlInfo, v1alpha1.DeploymentStrategyAnnotation: util.DumpJSON(&strategy)}},
 		Spec: apps.DeploymentSpec{Replicas: &n32, Paused: true, Selector: &metav1.LabelSelector{MatchLabels: map[string]string{"app": "demo"}}, Template: dTemplate("new"),
@@ -256,7 +261,7 @@ func (deployctlEngine) Coq(inAny any, obsAny any) string {
 	in := inAny.(DInput)
 	obs := obsAny.(DObs)
 	rs := func(s DRS) string { return emit.App("Build_rs", emit.Z(int64(s.Spec)), emit.Z(int64(s.Avail))) }
-	d := emit.App("Build_dstate", emit.Z(int64(in.N)), in.Partition.Coq(), optIOS(in.Surge), optIOS(in.Unavail), rs(in.New), emit.ListOf(in.Olds, rs), emit.Bool(in.NewOldest))
+	d := emit.App("Build_dstate", emit.Z(int64(in.N)), in.Partition.Coq(), optIOS(in.Surge), optIOS(in.Unavail), rs(in.New), emit.ListOf(in.Olds, rs), emit.Bool(in.NewOldest), emit.Bool(in.NoRU))
 	o := emit.App("Build_dobs", emit.Bool(obs.Panic != ""), emit.Bool(obs.Err != ""), emit.Z(int64(obs.New)), emit.ListOf(obs.Olds, func(x int) string { return emit.Z(int64(x)) }))
 	return emit.Pair(d, o)
 }
